@@ -118,6 +118,35 @@ def horizon_symbolic(h):
     return h[1][0] != 'num'
 
 
+def pdeg(e):
+    """polynomial degree of an expression in its leaves, uninterpreted markers counted as atoms"""
+    if not isinstance(e, E) or e.op == 'c':
+        return 0
+    if e.op in ('nl1', 'nl2'):
+        return 1
+    if e.op in ('+', '-'):
+        return max(pdeg(e.a[0]), pdeg(e.a[1]))
+    if e.op == '*':
+        return pdeg(e.a[0]) + pdeg(e.a[1])
+    if e.op == '/':
+        return pdeg(e.a[0]) + pdeg(e.a[1])
+    if e.op == 'neg':
+        return pdeg(e.a[0])
+    if e.op == 'pow':
+        return pdeg(e.a[0]) * e.a[1]
+    return 1
+
+
+def rexpr_bounded(rng, leaves, depth, maxdeg):
+    """random expression whose polynomial part stays below maxdeg (RK4 composes it 4*N*M times: z3's
+    normaliser does not finish on high-degree polynomial compositions; markers are unaffected)"""
+    for _ in range(40):
+        e = rexpr(rng, leaves, depth)
+        if pdeg(e) <= maxdeg:
+            return e
+    return rexpr(rng, leaves, 1)
+
+
 def random_ode(rng, nx=None, nu=None):
     nx = nx or rng.choice([1, 2, 2, 3])
     nu = rng.choice([0, 1, 1, 2]) if nu is None else nu
@@ -142,7 +171,7 @@ def random_ode(rng, nx=None, nu=None):
     if rng.random() < 0.25:
         vars_.append(Sym('vp', 'control+'))
         leaves.append(Vg('vp'))
-    ode = [rexpr(rng, leaves, depth=rng.choice([1, 2, 2, 3])) for _ in range(nx)]
+    ode = [rexpr_bounded(rng, leaves, rng.choice([1, 2, 2, 3]), 2) for _ in range(nx)]
     return Spec(nx=nx, nu=nu, ode=ode, params=params, vars=vars_, note='random ode')
 
 
@@ -150,7 +179,7 @@ def random_diffeq(rng):
     s = random_ode(rng)
     leaves = [X(i) for i in range(s.nx)] + [U(i) for i in range(s.nu)] + [t, DT, DTc]
     leaves += [Pg(p.name) for p in s.params] + [Vg(v.name) for v in s.vars]
-    s.nxt = [rexpr(rng, leaves, depth=2) for _ in range(s.nx)]
+    s.nxt = [rexpr_bounded(rng, leaves, 2, 2) for _ in range(s.nx)]
     s.ode = None
     s.note = 'random diffeq'
     return s
